@@ -20,40 +20,51 @@ DRIVER = "drv_c03"
 PROPS = ["Ptk.Props.C03"]
 LEVEL_TEXT = ("Lean 4 theorems over an executable model of Vt100Parser (prefix/longest-match coroutine with retry "
               "loop and persistent flush flag, prefix-of-longer-match table incl. CPR/mouse recognisers, paste fast "
-              "path with re-feed): chunk independence for every splitting of every stream (with flushes), "
+              "path with re-feed) and of the read path below it (incremental UTF-8 decoder with surrogateescape, "
+              "PosixStdinReader.read, Vt100Input.read_keys/flush_keys): chunk independence for every splitting of "
+              "every character stream AND of every byte stream (with flushes at fixed stream positions), "
               "losslessness (input = data of the key presses + pending prefix/paste), flush empties the prefix, "
-              "every table sequence decodes to its keys; stated for every table satisfying decidable side "
-              "conditions which the kernel re-decides on ANSI_SEQUENCES regenerated from /repo on every run; the "
-              "model is tied to /repo by regex pattern pins, a recogniser-vs-re differential and a differential "
-              "correspondence on Vt100Parser (exhaustive small scope + random) and on Vt100Input over a real pipe")
+              "every table sequence / CPR report / mouse report decodes to its key(s) as one press; stated for every "
+              "table satisfying decidable side conditions which the kernel re-decides on ANSI_SEQUENCES regenerated "
+              "from /repo on every run; the model is tied to /repo by regex pattern pins, a recogniser-vs-re "
+              "differential and a differential correspondence on Vt100Parser, on PosixStdinReader over a real pipe "
+              "and on Vt100Input over a real pipe (exhaustive small scope + random)")
 LEVEL_NOTE = ("trusted: Lean kernel, axioms propext/Classical.choice/Quot.sound only; the hand-written model "
               "(validated by the correspondence, not proved equal to the Python); CPython str/re/codecs semantics")
 RULE = ("exhaustive: every string over a 13-symbol alphabet {ESC [ 1 ; M < O A ~ 2 0 R a} up to the tier's bound, "
         "fed character by character with the full parser state compared after every character and after a final "
         "flush; for the shorter strings additionally a flush at every split point and every chunking; every "
-        "ANSI_SEQUENCES key alone and followed by every alphabet symbol; the four regexes vs the recognisers on all "
-        "short strings; then seeded random streams mixing table keys, CPR / mouse reports (complete, truncated, "
-        "malformed), paste blocks, control, printable, non-BMP characters, cut into random reads with random "
-        "flushes, also through Vt100Input on a real pipe with the UTF-8 bytes cut at random offsets. "
-        "A case is non-trivial when its stream contains ESC")
+        "ANSI_SEQUENCES key and sample CPR/mouse reports alone and followed by every alphabet symbol; the four "
+        "regexes vs the recognisers on all short strings; every byte string over 20 representative byte values up "
+        "to the bound through the real PosixStdinReader (whole / per byte / every 2-split); then seeded random "
+        "streams mixing table keys, CPR / mouse reports (complete, truncated, malformed), paste blocks, control, "
+        "printable, non-BMP characters, cut into random reads with random flushes, random (also invalid) byte "
+        "strings with random cuts, and valid streams through Vt100Input on a real pipe with the UTF-8 bytes cut "
+        "at random offsets. A case is non-trivial when its stream contains ESC (bytes: a byte >= 0x80)")
 EXHAUSTIVE = True
 EXHAUSTIVE_SCOPE = {
     "quick": "13-symbol alphabet: len<=4 char-by-char+flush; len<=3 flush at every split and all chunkings; "
-             "regex differential: full alphabet len<=3, CSI bodies len<=4",
+             "regex differential: full alphabet len<=3, CSI bodies len<=4; bytes: 20 values, len<=3",
     "thorough": "13-symbol alphabet: len<=5 char-by-char+flush; len<=4 flush at every split and all chunkings; "
-                "6-symbol alphabet len<=6 all chunkings; regex differential: full alphabet len<=4, CSI bodies len<=5"}
-TRUSTED = ["harness/c03.py compares (key, data) of every KeyPress and (in_paste, paste_buffer, generator prefix) "
-           "after every feed/flush",
-           "Ptk/Model/C03.lean is a hand translation of vt100_parser.py (correspondence-checked)",
+                "6-symbol alphabet len<=6 all chunkings; regex differential: full alphabet len<=4, CSI bodies "
+                "len<=5; bytes: 20 values, len<=4"}
+TRUSTED = ["harness/c03.py compares (key, data) of every KeyPress and (in_paste, paste_buffer, generator prefix, "
+           "decoder buffer) after every feed/flush/read",
+           "Ptk/Model/C03.lean, C03Utf8.lean are hand translations of vt100_parser.py / the read path "
+           "(correspondence-checked)",
            "harness/gen_c03.py prints ANSI_SEQUENCES, the regex patterns and the \\d class faithfully"]
 ASSUMPTIONS = ["CPython str / re / generator semantics", "regex \\d class regenerated from the interpreter",
-               "codecs incremental UTF-8 decoder and os.read/select are runtime (driven, not modelled)",
-               "lone surrogates (undecodable bytes under surrogateescape) are outside the model's alphabet"]
-PARTIAL_SCOPE = ["PosixStdinReader / incremental UTF-8 decoding is exercised end to end over a pipe but not modelled",
-                 "Win32 input and typeahead are out of scope",
+               "the incremental UTF-8 decoder is CPython runtime: modelled (utf8_decode error classes, "
+               "surrogateescape, held-back truncated surrogate) and compared with the real one on every run",
+               "os.read / select deliver the written bytes in order (pipe semantics)",
+               "lone surrogates (undecodable bytes under surrogateescape) reach the parser only in the decoder-level "
+               "model (code points as Nat); the parser model works on Unicode scalar values"]
+PARTIAL_SCOPE = ["Win32 input, typeahead, raw/cooked mode and the event-loop attachment are out of scope",
                  "decoding of *streams* of several sequences is proved lossless and chunk-independent; that each "
-                 "token of a stream is the longest possible one is proved only for a single table sequence "
-                 "followed by a flush (as the property states)"]
+                 "token of a stream is the longest possible one is proved for a single table sequence / report "
+                 "followed by a flush (as the property states), not for every token inside a longer stream",
+                 "os.read returning at most 1024 bytes per call and EOF/OSError handling of PosixStdinReader.read "
+                 "are driven (pipe cases) but not modelled"]
 
 ESC = "\x1b"
 PASTE_START = "\x1b[200~"
@@ -145,7 +156,10 @@ def model_lines(case):
     if k == "re":
         return [f"{o} {enc_str(s)}" for s in case["strs"] for o in RE_OPS]
     if k == "pipe":
-        return ["reset", "feed " + enc_str(case["s"]), "flush"]
+        data = case["s"].encode("utf-8")
+        return ["reset"] + ["read " + enc_bytes(p) for p in pipe_pieces(data, case["cuts"])] + ["bflush"]
+    if k == "dec":
+        return ["reset"] + ["dec " + enc_bytes(bytes(c)) for c in case["chunks"]]
     out = []
     for ops in schedules(case):
         out.append("reset")
@@ -171,28 +185,63 @@ def re_lines(s: str):
     ]
 
 
+def enc_bytes(b: bytes) -> str:
+    return "s:" + ",".join(str(x) for x in b)
+
+
+def pipe_pieces(data: bytes, cuts):
+    """the successive os.read results: data cut at the given byte offsets (and at 1024, the size
+    read_keys asks for)"""
+    cs = [0] + sorted(set(c for c in cuts if 0 < c < len(data))) + [len(data)]
+    out = []
+    for a, b in zip(cs, cs[1:]):
+        piece = data[a:b]
+        for off in range(0, len(piece), 1024):
+            out.append(piece[off:off + 1024])
+    return out
+
+
 def pipe_run(case):
     """Vt100Input over a real pipe: the UTF-8 bytes of the stream written in pieces cut at the
-    given byte offsets, read_keys() after every piece, flush_keys() at the end."""
+    given byte offsets, read_keys() after every piece, flush_keys() at the end.
+    -> list of (keys, parser state, decoder buffer) per read, then the same for the flush"""
     from prompt_toolkit.input import create_pipe_input
 
     data = case["s"].encode("utf-8")
-    cuts = [0] + sorted(set(c for c in case["cuts"] if 0 < c < len(data))) + [len(data)]
-    keys = []
+    steps = []
     with create_pipe_input() as inp:
-        for a, b in zip(cuts, cuts[1:]):
-            piece = data[a:b]
-            # read_keys takes at most 1024 bytes per call
-            for off in range(0, len(piece), 1024):
-                inp.send_bytes(piece[off:off + 1024])
-                keys += [(key_name(k.key), k.data) for k in inp.read_keys()]
         p = inp.vt100_parser
-        st1 = (bool(p._in_bracketed_paste), getattr(p, "_paste_buffer", ""),
-               p._input_parser.gi_frame.f_locals["prefix"])
-        fl = [(key_name(k.key), k.data) for k in inp.flush_keys()]
-        st2 = (bool(p._in_bracketed_paste), getattr(p, "_paste_buffer", ""),
-               p._input_parser.gi_frame.f_locals["prefix"])
-    return keys, st1, fl, st2
+
+        def snap(keys):
+            st = (bool(p._in_bracketed_paste), getattr(p, "_paste_buffer", ""),
+                  p._input_parser.gi_frame.f_locals["prefix"])
+            return ([(key_name(k.key), k.data) for k in keys], st,
+                    bytes(inp.stdin_reader._stdin_decoder.getstate()[0]))
+
+        for piece in pipe_pieces(data, case["cuts"]):
+            inp.send_bytes(piece)
+            steps.append(snap(inp.read_keys()))
+        steps.append(snap(inp.flush_keys()))
+    return steps
+
+
+def dec_run(chunks):
+    """the real PosixStdinReader on a real pipe: one os.write + one read() per chunk
+    -> list of (text, decoder buffer)"""
+    from prompt_toolkit.input.posix_utils import PosixStdinReader
+
+    r, w = os.pipe()
+    try:
+        reader = PosixStdinReader(r)
+        out = []
+        for c in chunks:
+            os.write(w, bytes(c))
+            text = reader.read()
+            out.append((text, bytes(reader._stdin_decoder.getstate()[0])))
+        return out
+    finally:
+        os.close(r)
+        os.close(w)
 
 
 def impl_lines(case):
@@ -203,8 +252,9 @@ def impl_lines(case):
             out += re_lines(s)
         return out
     if k == "pipe":
-        keys, st1, fl, st2 = pipe_run(case)
-        return ["ok", fmt(keys, st1), fmt(fl, st2)]
+        return ["ok"] + [fmt(keys, st) + " " + enc_bytes(buf) for keys, st, buf in pipe_run(case)]
+    if k == "dec":
+        return ["ok"] + [enc_str(t) + " " + enc_bytes(buf) for t, buf in dec_run(case["chunks"])]
     out = []
     for ops in schedules(case):
         r = Real()
@@ -325,13 +375,31 @@ def oracle(case):
     if k == "re":
         return v
     if k == "pipe":
-        keys, st1, fl, st2 = pipe_run(case)
+        steps = pipe_run(case)
+        keys = [x for ks, _, _ in steps for x in ks]
+        st2, buf2 = steps[-1][1], steps[-1][2]
         ref, rst, _ = run_real([["feed", case["s"]], ["flush"]])
-        if keys + fl != ref or st2 != rst:
+        if keys != ref or st2 != rst or buf2 != b"":
             v.append({"signature": "Vt100Input.read_keys | byte chunking changes keys",
-                      "msg": f"s={case['s']!r} cuts={case['cuts']} pipe={keys + fl, st2} direct={ref, rst}"})
+                      "msg": f"s={case['s']!r} cuts={case['cuts']} pipe={keys, st2, buf2} direct={ref, rst}"})
         if st2[2] != "":
             v.append({"signature": "Vt100Parser.flush | prefix left after flush", "msg": f"pipe state={st2!r}"})
+        return v
+    if k == "dec":
+        # chunk independence of the reader: same text and same pending bytes as one read of everything
+        chunks = case["chunks"]
+        whole = [x for c in chunks for x in c]
+        if 0 < len(whole) <= 1024:
+            got = dec_run(chunks)
+            one = dec_run([whole])
+            if ("".join(t for t, _ in got), got[-1][1]) != one[0]:
+                v.append({"signature": "PosixStdinReader.read | byte chunking changes text",
+                          "msg": f"chunks={chunks} chunked={got!r} whole={one!r}"})
+            # nothing is lost: text (surrogateescape round trip) + pending bytes == the bytes written
+            back = "".join(t for t, _ in got).encode("utf-8", "surrogateescape") + got[-1][1]
+            if back != bytes(whole):
+                v.append({"signature": "PosixStdinReader.read | bytes lost or altered",
+                          "msg": f"chunks={chunks} round trip={back!r}"})
         return v
     for ops in schedules(case):
         check_schedule(ops, v)
@@ -503,6 +571,8 @@ def cases(tier, rng):
     for _ in range(nrand):
         s = rand_stream(rng, rng.choice([1, 2, 3, 5, 8, 20]))
         yield {"k": "ops", "ops": rand_ops(rng, s)}
+    # 4b. the incremental UTF-8 decoder under PosixStdinReader.read (arbitrary bytes)
+    yield from dec_cases(tier, rng)
     # 5. through Vt100Input on a real pipe, bytes cut at random offsets (also inside UTF-8 sequences)
     npipe = 300 if quick else 6000
     for _ in range(npipe):
@@ -510,6 +580,43 @@ def cases(tier, rng):
         nb = len(s.encode("utf-8"))
         cuts = sorted(rng.randrange(0, nb + 1) for _ in range(rng.choice([0, 1, 2, 5, nb])))
         yield {"k": "pipe", "s": s, "cuts": cuts}
+
+
+U8_ALPHA = [0x41, 0x1b, 0x80, 0x8f, 0x90, 0x9f, 0xa0, 0xbf, 0xc1, 0xc2, 0xdf, 0xe0, 0xe1, 0xed, 0xee, 0xf0,
+            0xf1, 0xf4, 0xf5, 0xff]
+
+
+def dec_cases(tier, rng):
+    """decoder level: every byte string over U8_ALPHA up to the bound, (a) in one read, (b) one
+    byte per read; random longer byte strings with random cuts"""
+    quick = tier == "quick"
+    n1 = 3 if quick else 4
+    for n in range(1, n1 + 1):
+        for grp in batched(itertools.product(U8_ALPHA, repeat=n), 50):
+            # several independent strings per case would share decoder state: one case per string
+            for tup in grp:
+                yield {"k": "dec", "chunks": [list(tup)]}
+                if n >= 2:
+                    yield {"k": "dec", "chunks": [[b] for b in tup]}
+                    if n >= 3:
+                        yield {"k": "dec", "chunks": [list(tup[:1]), list(tup[1:])]}
+                        yield {"k": "dec", "chunks": [list(tup[:2]), list(tup[2:])]}
+    for _ in range(400 if quick else 20000):
+        kind = rng.randrange(3)
+        if kind == 0:  # valid text, cut anywhere
+            data = list(rand_stream(rng, rng.choice([1, 3, 8])).encode("utf-8"))
+        elif kind == 1:  # arbitrary bytes
+            data = [rng.choice(U8_ALPHA + [rng.randrange(256)]) for _ in range(rng.randrange(1, 12))]
+        else:  # valid text with damaged bytes
+            data = list(rand_stream(rng, rng.choice([1, 3, 8])).encode("utf-8"))
+            for _ in range(rng.randrange(1, 4)):
+                if data:
+                    data[rng.randrange(len(data))] = rng.choice(U8_ALPHA)
+        if not data:
+            continue
+        cuts = sorted(set(rng.randrange(1, len(data) + 1) for _ in range(rng.choice([0, 1, 2, 5, len(data)]))))
+        cs = [0] + [c for c in cuts if c < len(data)] + [len(data)]
+        yield {"k": "dec", "chunks": [data[a:b] for a, b in zip(cs, cs[1:]) if b > a]}
 
 
 def sample_view(case):
@@ -523,6 +630,8 @@ def nontrivial(case):
         return True
     if case["k"] == "ops":
         return any(ESC in op[1] for op in case["ops"] if op[0] == "feed")
+    if case["k"] == "dec":
+        return any(b >= 0x80 for c in case["chunks"] for b in c)
     return ESC in case["s"]
 
 
@@ -534,7 +643,9 @@ def distribution(cases):
         if c["k"] == "re":
             d["re_strings"] += len(c["strs"])
             continue
-        if c["k"] == "ops":
+        if c["k"] == "dec":
+            n = sum(len(x) for x in c["chunks"])
+        elif c["k"] == "ops":
             n = sum(len(op[1]) for op in c["ops"] if op[0] == "feed")
             f = sum(1 for op in c["ops"] if op[0] == "flush")
             fk = str(f) if f < 4 else "4+"
